@@ -113,7 +113,7 @@ def correspond(ctx):
         meta.append({"fn": "piston_orth", "nr": nr, "nontrivial": True})
     confs = [(0.25, 5, 7), (rng.uniform(0.05, 0.6), 4, 4), (rng.uniform(0.05, 0.9), 6, rng.randint(3, 12))]
     if tier != "quick":
-        confs += [(rng.uniform(0.02, 0.95), rng.randint(4, 8), rng.randint(2, 16)) for _ in range(4)]
+        confs += [(rng.uniform(0.02, 0.95), rng.randint(4, 8), rng.randint(2, 16)) for _ in range(10)]
     for ri, nr, nfunc in confs:
         basis_cases(ri, nr, nfunc, None, cases, meta, "first generation")
         # history: a second basis for the same telescope (same ri, nr) in the same process
